@@ -1,11 +1,21 @@
+pub mod c03;
 pub mod c06;
+pub mod c08;
+pub mod c12;
+pub mod c13;
+pub mod evs;
+pub mod ost;
 
 use super::engine::{Codec, Tier};
 
 /// dispatch: run every sub-check of one property; returns the process exit code
 pub fn run_property<C: Codec>(id: &str, tier: Tier) -> i32 {
     match id {
+        "C03" => c03::run::<C>(tier),
         "C06" => c06::run::<C>(tier),
+        "C08" => c08::run::<C>(tier),
+        "C12" => c12::run::<C>(tier),
+        "C13" => c13::run::<C>(tier),
         _ => {
             println!("INCONCLUSIVE unknown property {id}");
             2
@@ -23,7 +33,11 @@ pub fn replay<C: Codec>(text: &str) -> i32 {
     };
     let known = super::engine::load_known::<C>(&head.property);
     let r = match head.property.as_str() {
+        "C03" => c03::replay::<C>(text, &known),
         "C06" => c06::replay::<C>(text, &known),
+        "C08" => c08::replay::<C>(text, &known),
+        "C12" => c12::replay::<C>(text, &known),
+        "C13" => c13::replay::<C>(text, &known),
         _ => None,
     };
     match r {
